@@ -610,6 +610,10 @@ func tuplePat(vars []string) string {
 	return "'" + tuple(vars)
 }
 
+// trStmtHook lets another translator of this package add statement forms (psiwritegen.go sets it while it runs);
+// it is nil while Gen/Preds.v is emitted.
+var trStmtHook func(t *tr, list []ast.Stmt, k func() string) (string, bool)
+
 // stmts translates a statement list; k produces the final expression when the
 // list falls off its end (the continuation).
 func (t *tr) stmts(list []ast.Stmt, k func() string) string {
@@ -617,6 +621,11 @@ func (t *tr) stmts(list []ast.Stmt, k func() string) string {
 		return k()
 	}
 	rest := func() string { return t.stmts(list[1:], k) }
+	if trStmtHook != nil {
+		if out, ok := trStmtHook(t, list, k); ok {
+			return out
+		}
+	}
 	switch s := list[0].(type) {
 	case *ast.ReturnStmt:
 		return t.ret(s)
